@@ -27,6 +27,59 @@ func runC04(c *Ctx) {
 	c04R4(c)
 	c04R5(c)
 	c04R6(c)
+	c04R7(c)
+}
+
+// c04R7: a deferred ack is given up only when the stream is gone, the retries are exhausted or the
+// back-off was interrupted — never merely because a teardown has begun (the drain still delivers).
+func c04R7(c *Ctx) {
+	r := c.R.Rule("R7", "K4 deferred acks are not skipped: in Source.deliverOneAck every return behind a failed stream.Send lies behind streamTornDown()==true, the retries-exhausted edge or the interrupted-back-off edge (dropping entry k for any other reason lets k+1 reach the plugin first: a gap)", 1)
+	fn := c.SSA(r, pConn, "(*Source).deliverOneAck")
+	torn := c.Fn(r, pConn, "(*Source).streamTornDown")
+	maxR := c.Fn(r, pConn, "(*Source).maxDeferredAckRetries")
+	backoff := c.Fn(r, pConn, "(*Source).backoffDeferredAck")
+	if fn == nil || torn == nil || maxR == nil || backoff == nil {
+		return
+	}
+	var sends []ssa.CallInstruction
+	for _, b := range fn.Blocks {
+		for _, in := range b.Instrs {
+			if ci, ok := in.(ssa.CallInstruction); ok && ci.Common().IsInvoke() && ci.Common().Method.Name() == "Send" {
+				sends = append(sends, ci)
+			}
+		}
+	}
+	if len(sends) != 1 {
+		c.R.Fail(r, "deliverOneAck: stream.Send", c.Pos(fn.Pos()), "expected exactly one stream.Send")
+		return
+	}
+	g := kit.NewGates()
+	g.AddEdges(condEdgesOfCalls(fn, Set(torn), true), "streamTornDown()")
+	g.AddEdges(condEdgesOfCalls(fn, Set(backoff), false), "back-off interrupted")
+	for _, mc := range kit.CallsTo(fn, Set(maxR)) {
+		mv := mc.Value()
+		g.AddEdges(kit.RelEdges(fn, func(v ssa.Value) bool { _, isB := v.(*ssa.BinOp); _, isP := v.(*ssa.Phi); return isB || isP }, func(v ssa.Value) bool { return v == mv }, kit.RelGE), "attempt >= max retries")
+	}
+	// a retry that delivers, or finds the plugin/stream gone, also ends the attempt legitimately
+	g.AddEdges(kit.OKEdges(sends[0]), "delivered on retry")
+	if prep := c.Fn(r, pConn, "(*Source).preparePluginCall"); prep != nil {
+		for _, pc := range kit.CallsTo(fn, Set(prep)) {
+			g.AddEdges(kit.FailEdges(pc), "plugin not running")
+		}
+	}
+	if stF := c.Field(r, pConn, "Source", "stream"); stF != nil {
+		for _, l := range kit.FieldLoads(fn, stF) {
+			g.AddEdges(kit.NilEdges(l, true), "no stream")
+		}
+	}
+	ok := true
+	fe := kit.FailEdges(sends[0])
+	for _, e := range fe {
+		if pass, _ := kit.AllExitsFromEdge(e, false, kit.ExitSpec{Gates: g}); !pass {
+			ok = false
+		}
+	}
+	c.R.Check(ok && len(fe) > 0, r, "deliverOneAck: a queued ack is abandoned only when the stream is gone or the retries are spent", c.Pos(sends[0].Pos()), "ok", "deliverOneAck returns after a failed send on a path that is neither the stream-torn-down, the retries-exhausted nor the interrupted-back-off edge: a transient failure during the drain drops entry k and the loop goes on to deliver k+1 — the plugin sees a gap", true)
 }
 
 // c04R6: the ack aggregation state is only touched under its mutex.
@@ -194,7 +247,10 @@ func c04R1R2(c *Ctx) {
 }
 
 func c04R3(c *Ctx) {
-	r := c.R.Rule("R3", "K5/K2/K3 v2 fan-out release: tally fields under m.mu; `released` written only in releaseLocked, after a successful parent call made with m.mu held, and never past a non-terminal position", 30)
+	c04R3As(c, c.R.Rule("R3", "K5/K2/K3 v2 fan-out release: tally fields under m.mu; `released` written only in releaseLocked, after a successful parent call made with m.mu held, and never past a non-terminal position", 30))
+}
+
+func c04R3As(c *Ctx, r string) {
 	var fields []*types.Var
 	for _, f := range []string{"ackVotes", "terminal", "acked", "record", "nackErr", "nackTaskID", "released"} {
 		if v := c.Field(r, pFunnel, "multiAckNacker", f); v != nil {
